@@ -246,14 +246,17 @@ class C08(core.Property):
         "the model reports a schedule that breaks it instead of trusting it",
     ]
     hypotheses = [
-        "pipe theorems: Setting (repaired driver, Server worker with fixed limit, FIFO/LIFO/priority queue without balking wrapper)",
+        "pipe theorems: Setting (repaired driver, Server worker with fixed limit, queue policy FIFO / LIFO / stable priority / deadline / "
+        "adaptive LIFO / fair / weighted fair, with or without the balking wrapper; RED and CoDel excluded). The pipeline model polls the policy at clock 0 "
+        "and passes coin=false: inside a pipeline run a deadline queue expires nothing and the balking wrapper refuses only what its inner policy refuses "
+        "(the policy-level lemmas rel_push_len / sPush_held hold for every coin: any refused push leaves the queue unchanged and is a counted drop)",
+        "item_state_partition_full / _every_event / _any_schedule: the offered item ids of the schedule (ids of its `arr` actions) are pairwise distinct "
+        "(offeredIds as).Nodup — same as the assumption 'item ids in a case are distinct'; _any_schedule needs neither Setting nor Sched",
+        "fifo_start_order: Setting with c.pol.kind = fifo, any limit; fifo_end_to_end: additionally concurrency limit 1 (initial state { limit := 1 })",
         "pipe theorems: Sched — every QueueDispatchedEvent is delivered after the payload it was created behind (engine FIFO tie order, C01); "
         "theorem dispatched_before_payload_breaks shows the hypothesis is necessary; the correspondence run reports any schedule violating it as a disagreement-free judge violation",
     ]
     partial_theorems = {
-        "HappyModel.C08.Pipe.item_state_partition_partial": "counting form: accepted = waiting + in transit + in service + completed at every point; "
-                                                           "the identity form (item_state_partition_full: every offered id in exactly one population, completed at most once) "
-                                                           "is stated as a def and checked by the Lean judge on every implementation run, not proved",
         "HappyModel.C08.held_le_capacity": "all policies constructed with `capacity`; FairQueue's bound max_flows*per_flow_capacity is only checked by the judge",
     }
     variants = ["repaired", "current"]
@@ -794,6 +797,11 @@ THEOREMS: list[str] = [
     "HappyModel.C08.Pipe.in_service_le_limit",
     "HappyModel.C08.Pipe.no_accepted_item_discarded",
     "HappyModel.C08.Pipe.item_state_partition_partial",
+    "HappyModel.C08.Pipe.item_state_partition_full",
+    "HappyModel.C08.Pipe.item_state_partition_every_event",
+    "HappyModel.C08.Pipe.item_state_partition_any_schedule",
+    "HappyModel.C08.Pipe.fifo_start_order",
+    "HappyModel.C08.Pipe.fifo_end_to_end",
     "HappyModel.C08.Pipe.no_strand",
     "HappyModel.C08.Pipe.double_poll_discards",
     "HappyModel.C08.Pipe.double_poll_over_admits",
